@@ -30,6 +30,9 @@ type c03Fix struct {
 	// has them: content of a manifest body, never a tag of this repository
 	idx    []byte
 	idxDig string
+	// the same children listed by an ordinary index (descriptors without annotations)
+	idx0    []byte
+	idx0Dig string
 }
 
 func c03Fixture() *c03Fix {
@@ -47,6 +50,8 @@ func c03Fixture() *c03Fix {
 	d2.Annotations = map[string]string{types.AnnotRefName: "ghost"}
 	f.idx = h.Index(types.MediaTypeOCI1ManifestList, []h.Desc{d1, d2}, nil, "", nil)
 	f.idxDig = h.Dig("sha256", f.idx)
+	f.idx0 = h.Index(types.MediaTypeOCI1ManifestList, []h.Desc{h.ManDesc(types.MediaTypeOCI1Manifest, f.man[0]), h.ManDesc(types.MediaTypeOCI1Manifest, f.man[1])}, nil, "", nil)
+	f.idx0Dig = h.Dig("sha256", f.idx0)
 	return f
 }
 
@@ -161,6 +166,21 @@ func c03Specs(tier string) []*h.SeqSpec {
 			delete(m.Man, fx.idxDig)
 			return nil
 		}})
+		opsX = append(opsX, h.Op{Name: "put index X0 (the same children, plain descriptors) by digest", Do: func(w *h.World) []h.Violation {
+			if r := w.PutManifest(repo, fx.idx0Dig, types.MediaTypeOCI1ManifestList, fx.idx0); r.Status == 201 {
+				mdl(w).Man[fx.idx0Dig] = true
+			}
+			return nil
+		}})
+		opsX = append(opsX, h.Op{Name: "delete index X0 by digest", Do: func(w *h.World) []h.Violation {
+			m := mdl(w)
+			r := w.Delete("/v2/" + repo + "/manifests/" + fx.idx0Dig)
+			if m.Man[fx.idx0Dig] && r.Status != 202 {
+				return []h.Violation{h.V("digest-delete", "digest-delete-refused", "delete of the present index X0 answered %s", r)}
+			}
+			delete(m.Man, fx.idx0Dig)
+			return nil
+		}})
 		spX := *sp
 		spX.Name = "c03-" + store + "-annotated-index"
 		spX.Ops = opsX
@@ -222,7 +242,7 @@ func c03Probe(w *h.World, repo string, fx *c03Fix, tags []string) []h.Violation 
 			if r.Status != 200 || string(r.Body) != string(fx.man[i]) {
 				add("manifest-stays-by-digest", "manifest-lost", "manifest M%d should be addressable by digest, got %s", i+1, r)
 			}
-		} else if r.Status != 404 && !m.Man[fx.idxDig] {
+		} else if r.Status != 404 && !m.Man[fx.idxDig] && !m.Man[fx.idx0Dig] {
 			// (while the index X that lists it is present the answer is left open, see DESIGN 8.3 item 14)
 			add("digest-delete-removes", "deleted-manifest-served", "manifest M%d was deleted but GET answered %s", i+1, r)
 		}
